@@ -40,7 +40,7 @@ pub fn gen_line(e: &mut Entropy, corp: &corpus::Corpus) -> (String, Vec<&'static
             let mut s = if e.pick(2) == 0 || corp.len() == 0 { "position startpos".to_string() } else { format!("position fen {}", corp.fens[e.pick(corp.len())]) };
             if s == "position startpos" && e.pick(2) == 0 {
                 let mut g = Game::new(Pos::startpos());
-                let n = e.pick(6);
+                let n = e.pick(9);
                 let mut ms = vec![];
                 for _ in 0..n {
                     let l = g.cur.legal_moves();
@@ -190,6 +190,12 @@ pub fn gen_line(e: &mut Entropy, corp: &corpus::Corpus) -> (String, Vec<&'static
         19 => {
             cl.push("unknown-word");
             ["xyzzy", "go!", "Position startpos", "ISREADY", "stopp", "\u{feff}uci", "uci uci uci", "ucinewgame extra", "debug on", "ponderhit", "register later"][e.pick(11)].to_string()
+        }
+        20 if e.pick(2) == 0 => {
+            // resolved by the session builder: the most recent position command re-sent with
+            // fewer (a strict beginning) or more moves
+            cl.push("position:previous-resent-shorter-or-longer");
+            format!("@@RESEND@@ {}", e.pick(6))
         }
         20 => {
             cl.push("empty-or-blank");
@@ -405,10 +411,30 @@ pub fn run(ctx: &Ctx) -> Report {
     }
     let cases = ctx.tier.pick(12_000, 200_000) / ctx.shard_count() as u32;
     run_prop(ctx, "c15", cases, 40, strategy(), &mut rep, |c, rep| {
-        let mut lines = vec![];
+        let mut lines: Vec<String> = vec![];
         let mut classes: Vec<&'static str> = vec![];
+        let mut last_pos: Option<(String, Vec<String>)> = None; // (head, moves) of the last startpos/fen command with legal moves
         for ent in &c.lines {
-            let (l, cl) = gen_line(&mut Entropy::new(ent), &corp);
+            let (mut l, cl) = gen_line(&mut Entropy::new(ent), &corp);
+            if let Some(k) = l.strip_prefix("@@RESEND@@ ") {
+                let k: usize = k.trim().parse().unwrap_or(0);
+                l = match &last_pos {
+                    Some((head, moves)) if !moves.is_empty() => {
+                        // k = 0..2: shorter by 1..3 (at least one move kept when possible); 3..5: the same list again
+                        let keep = if k < 3 { moves.len().saturating_sub(k + 1).max(1).min(moves.len()) } else { moves.len() };
+                        format!("{head} moves {}", moves[..keep].join(" "))
+                    }
+                    _ => "position startpos moves e2e4 e7e5 g1f3 b8c6".to_string(),
+                };
+            }
+            if l.starts_with("position startpos moves ") || (l.starts_with("position fen ") && l.contains(" moves ")) {
+                if let Some((head, tail)) = l.split_once(" moves ") {
+                    let mv: Vec<String> = tail.split_whitespace().map(String::from).collect();
+                    if mv.len() >= 2 && mv.len() <= 40 {
+                        last_pos = Some((head.to_string(), mv));
+                    }
+                }
+            }
             lines.push(l);
             classes.extend(cl);
         }
